@@ -66,7 +66,7 @@ def bind(chk: Check, tier: str, seed: int):
     by_id = {d["id"]: d for d in db["defs"]}
     rng = random.Random(seed)
     per_def = {"quick": 2, "thorough": 12, "selftest": 1}[tier]
-    picked = pick_messages(db, rng, per_def, lambda d: d["decodable"] and d["static"], tier)
+    picked = pick_messages(db, rng, per_def, lambda d: d["decodable"], tier)      # (definitions with text fields included)
     if tier == "selftest":
         picked = picked[::3]
     chk.gate(len(picked) >= (60 if tier == "selftest" else 250), f"only {len(picked)} messages picked")
